@@ -39,6 +39,24 @@ git -C $WT apply $SRC/patch.diff 2>/dev/null || git -C $WT apply --3way $SRC/pat
 ( cd $MODDIR && timeout 600 go1.26.8 test $RACE -vet=off -count=1 -run "$RX" $TESTPKG ) > /tmp/sv-$ID.mut.log 2>&1; MUT=$?
 rm $WT/$PKG/zz_seeded_demo_test.go
 ( cd $WT && timeout 1500 go1.26.8 test -vet=off -count=1 -timeout 20m -skip "$SKIP" ./... && cd cache && timeout 600 go1.26.8 test -vet=off -count=1 ./... ) > /tmp/sv-$ID.suite.log 2>&1; SUITE=$?
+# Timing-sensitive tests (query package) fail spuriously when the machine is
+# busy: a package that failed is given two more tries on its own.
+if [ $SUITE -ne 0 ]; then
+  PKGS=$(grep -h "^FAIL[[:space:]]" /tmp/sv-$ID.suite.log | awk '{print $2}' | grep "^github.com/lightninglabs/neutrino" | sort -u)
+  if [ -n "$PKGS" ] && ! grep -q "panic: test timed out" /tmp/sv-$ID.suite.log; then
+    OK=1
+    for PK in $PKGS; do
+      REL=./${PK#github.com/lightninglabs/neutrino}; REL=${REL%/}; [ "$REL" == "." ] || REL=./${REL#.//}
+      DIR=$WT; [[ $PK == */cache/* ]] && { DIR=$WT/cache; REL=./${PK#github.com/lightninglabs/neutrino/cache/}; }
+      PASS=0
+      for try in 1 2; do
+        ( cd $DIR && timeout 900 go1.26.8 test -vet=off -count=1 -timeout 15m -skip "$SKIP" $REL ) >> /tmp/sv-$ID.suite.log 2>&1 && { PASS=1; break; }
+      done
+      [ $PASS -eq 1 ] || OK=0
+    done
+    [ $OK -eq 1 ] && { SUITE=0; echo "SEED $ID: suite passed on retry of $PKGS"; }
+  fi
+fi
 echo "SEED $ID: demo clean rc=$CLEAN (want 0), demo mutant rc=$MUT (want !=0), suite on mutant rc=$SUITE (want 0)"
 if [ $CLEAN -ne 0 ] || [ $MUT -eq 0 ] || [ $SUITE -ne 0 ]; then
   echo "SEED $ID: NOT CONFIRMED"; grep -h "^--- FAIL\|^FAIL\|panic:" /tmp/sv-$ID.suite.log /tmp/sv-$ID.clean.log | head -5; exit 4
